@@ -400,9 +400,11 @@ class WSDiscovery:
             )
             if len(service.x_addrs) > len(already_known_service.x_addrs):
                 already_known_service.x_addrs = service.x_addrs
-            if service.scopes is not None:
+            # optional parts that this message does not carry (absent Types -> [], empty Scopes) say nothing:
+            # they must not erase what another message of the same metadata version announced
+            if service.scopes is not None and service.scopes.text:
                 already_known_service.scopes = service.scopes
-            if service.types is not None:
+            if service.types:
                 already_known_service.types = service.types
         elif service.metadata_version > already_known_service.metadata_version:
             self._logger.info(
